@@ -373,6 +373,48 @@ def run(prog: Program, res: Result) -> None:  # noqa: PLR0912, PLR0915
         else:
             res.ok("C08.R9", f"{EXT}:{f.node.lineno} {f.qualname}", f"{f.qualname}: tokens are identified before they are consumed", "no next()-and-compare")
     res.floor("C08.R9", "inheritance tag parsers", n9, 2)
+    res.rule("C08.R10", "a template's identity in the inheritance machinery is what `extends` named (or the template's full name), never `Template.name`: loaders set it to the basename of the requested name, so `blog/base.html` and `layouts/base.html` are one `name` - a membership test, comparison or set keyed on it takes a linear chain through two folders for a cycle")
+    n10 = 0
+    for f in sorted(prog.mod(EXT).functions.values(), key=lambda f: f.node.lineno):
+        tvars = {p_ for p_ in f.params() if "template" in p_ or p_ in ("parent", "base")}
+        for a in ast.walk(f.node):
+            if isinstance(a, ast.Assign) and isinstance(a.value, (ast.Call, ast.Await)) and "get_template" in norm(a.value, 200):
+                tvars |= {t.id for t in a.targets if isinstance(t, ast.Name)}
+        for x in ast.walk(f.node):
+            if not (isinstance(x, ast.Attribute) and x.attr == "name" and isinstance(x.value, ast.Name) and x.value.id in tvars and prog.enclosing_function(f.module, x) is f):
+                continue
+            n10 += 1
+            used_as_identity = None
+            child: ast.AST = x
+            for anc in f.module.ancestors(x):
+                if isinstance(anc, ast.Compare) or isinstance(anc, (ast.Set, ast.SetComp)) or (isinstance(anc, ast.Call) and isinstance(anc.func, ast.Attribute) and anc.func.attr in ("add", "discard", "remove", "__contains__") and child in anc.args) or (isinstance(anc, ast.Subscript) and child is anc.slice):
+                    used_as_identity = anc
+                    break
+                if isinstance(anc, (ast.stmt, ast.keyword, ast.JoinedStr)):
+                    break
+                child = anc
+            site = f"{EXT}:{x.lineno} {f.qualname}"
+            what = f"{f.qualname}: `{norm(x)}` (a basename) is not used to tell templates apart"
+            if used_as_identity is None:
+                res.ok("C08.R10", site, what, "used for naming only (message / template_name / full-name computation)")
+            else:
+                res.fail("C08.R10", file=EXT, line=x.lineno, qualname=f.qualname, construct=f"{f.qualname}: templates told apart by `.name`", message=f"{f.qualname} uses `{norm(x)}` in `{norm(used_as_identity, 60)}`: Template.name is the basename of the name a template was loaded by, so two templates of a chain that live in different folders under one file name are taken for the same template (`circular extends` for a linear chain)", what=what)
+    res.floor("C08.R10", "uses of <template>.name in the inheritance module", n10, 2)
+    res.rule("C08.R11", "`{{ block.super }}` renders the next less-derived definition once: the item getters reach a context object by subscription only - no membership test (`key in obj`) on it, which for a Mapping without __contains__ (the `block` drop) runs __getitem__, i.e. renders the parent block, a second time (counters, cycles and assigns in it then advance twice)")
+    ctx_cls = prog.cls("liquid2.context.RenderContext")
+    n11 = 0
+    for nm in ("get_item", "get_item_async"):
+        gm = ctx_cls.methods.get(nm)
+        if gm is None:
+            raise AnalysisError(f"RenderContext.{nm} vanished")
+        n11 += 1
+        objs = {p_ for p_ in gm.params() if p_ not in ("self", "key")} | {"obj"}
+        bad = [c for c in ast.walk(gm.node) if isinstance(c, ast.Compare) and any(isinstance(o, (ast.In, ast.NotIn)) for o in c.ops) and any(isinstance(r_, ast.Name) and r_.id in objs for r_ in c.comparators)]
+        if bad:
+            res.fail("C08.R11", file=gm.file, line=bad[0].lineno, qualname=f"RenderContext.{nm}", construct=f"RenderContext.{nm}: membership test on the data object", message=f"RenderContext.{nm} evaluates `{norm(bad[0], 50)}`: for a Mapping that does not define __contains__ the abc falls back to __getitem__, and the `block` drop's __getitem__('super') renders the parent block - every `{{{{ block.super }}}}` then renders the less-derived definition twice and throws the first result away", what=f"RenderContext.{nm}: context objects are reached by subscription only")
+        else:
+            res.ok("C08.R11", f"{gm.file}:{gm.node.lineno} RenderContext.{nm}", f"RenderContext.{nm}: context objects are reached by subscription only", "no `in` with the object on the right")
+    res.floor("C08.R11", "item getters", n11, 2)
     res.rule("C08.R8", "the inheritance tags are never taken for whitespace: ExtendsNode and the inheritance BlockNode write the parent chain's / the override's text, so their `blank` flag is False however they are nested - a blank `extends` inside a `{% liquid %}` or `{% if %}` whose other children are blank is rendered into the null buffer and the page comes out empty, without an error (shared with C01.R2 / C18.R2, restricted to liquid2/builtin/tags/extends_tag.py)")
     from checks.blank import check_blank_flags
 
